@@ -36,6 +36,8 @@ def matcher : Matcher where
   matchesPrefix := matchesPrefix
   computeResult := computeResult
   reserve := ["select"]
+  hasResult := true
+  watched := ["assert", "select"]
 
 /-- `RemoveAssertions::flawless_process`; the flag says `has_side_effects` left the modelled fragment -/
 def apply (preserve : Bool) (b : Block) : Block × Bool := RemoveCallMatch.apply matcher preserve b
